@@ -263,3 +263,48 @@ func TestRegressPrecommitBeforeFirstHeight(t *testing.T) {
 		e.close()
 	}
 }
+
+const findMempoolIDLeak = "C17-mempool-peer-id-leak-on-duplicate-initpeer"
+
+// TestRegressMempoolPeerIDLeak — replay of finding C17-mempool-peer-id-leak-on-duplicate-initpeer.
+//
+// Switch.addPeer calls InitPeer on every reactor BEFORE it adds the peer to the peer set; when a connection with the
+// same node id is already there (we dial X while X dials us) the Add fails and the switch drops the second connection
+// without calling RemovePeer. mempoolIDs.ReserveForPeer hands out a fresh id on every InitPeer and overwrites the map
+// entry, Reclaim frees only the id currently mapped: each such event leaks one of the 65535 ids for the life of the
+// process, and when they run out nextPeerID panics inside InitPeer on the accept / dial goroutine (no recover).
+func TestRegressMempoolPeerIDLeak(t *testing.T) {
+	for _, v := range []string{"v0", "v1"} {
+		mcfg := cfg.DefaultMempoolConfig()
+		mcfg.Version = v
+		e := newMempoolEnv(tfail{t}, v, mcfg)
+		active := func() int {
+			switch r := e.r.(type) {
+			case interface{ VerifC17ActivePeerIDs() int }:
+				return r.VerifC17ActivePeerIDs()
+			}
+			t.Fatalf("harness: no id accessor")
+			return 0
+		}
+		base := active()
+		for i := 0; i < 5; i++ {
+			p := newPeer(false)
+			dup := newPeer(true)
+			dup.id, dup.addr.ID = p.id, p.id // the same node, second connection
+			e.r.InitPeer(p)
+			p2p.AddPeerToSwitchPeerSet(e.sw, p)
+			e.r.AddPeer(p)
+			e.r.InitPeer(dup)          // Switch.addPeer of the losing connection gets this far ...
+			dup.Stop()                 //nolint // ... then fails on the duplicate id and only cleans the connection up
+			e.sw.StopPeerGracefully(p) // later the node disconnects: RemovePeer
+		}
+		e.close()
+		if got := active(); got != base {
+			if lib.IsKnown(findMempoolIDLeak) {
+				lib.ObservedKnown(findMempoolIDLeak)
+				continue
+			}
+			t.Fatalf("mempool %s: after 5 connect / duplicate-connect / disconnect rounds of nodes that are all gone, %d peer ids are still reserved (%d before): one id leaks per duplicate connection; at 65535 InitPeer panics on the switch's accept routine", v, got, base)
+		}
+	}
+}
